@@ -457,9 +457,13 @@ pub fn sim_shipped(scn: &W4Scn, seed: u64, progress: bool) -> u64 {
 }
 
 pub fn sim_manual(scn: &W4Scn, seed: u64) -> (u64, u64) {
+    sim_manual_kind(scn, seed, 0)
+}
+
+pub fn sim_manual_kind(scn: &W4Scn, seed: u64, kind: usize) -> (u64, u64) {
     let mut w = World::new(&scn.cfg);
     seed_world(&mut w, scn);
-    let mut rng = SeamRng::passthrough(seed);
+    let mut rng = SeamRng::passthrough_kind(seed, kind);
     w.run_manual(&scn.agents, &scn.cfg.ticks, &mut rng, scn.cfg.n_steps);
     (w.digest(), rng.draws)
 }
@@ -587,8 +591,24 @@ pub fn execute_c09(scn: &W4Scn, run_dir: &str) -> RunOutcome {
         stats.probe("manual_loop_with_seam_rng");
         stats.probe_n("rng_draws", draws);
         if d1 != d3 {
-            return Err(v(scn, "nondeterministic", "digest(sim_runner) vs digest(manual loop with the seeded generator)", d1.to_string(), d3.to_string())
-                .detail("the shipped runner differs from `agents.update(env, rng); env.step(rng)` driven by Xoroshiro128**(seed): some randomness does not come from the seeded generator, or the runner does something else".into()));
+            // no property names the generator algorithm: before reporting, try the documented loop with every other
+            // seedable generator the runner could have built from `seed` (a swapped algorithm keeps C09 true)
+            let mut other = None;
+            for kind in 1..crate::rng::GEN_NAMES.len() {
+                if let Ok((dk, _)) = guard(|| sim_manual_kind(scn, seed, kind)) {
+                    if dk == d1 {
+                        other = Some(kind);
+                        break;
+                    }
+                }
+            }
+            match other {
+                Some(_) => stats.probe("runner_generator_other_family_member"),
+                None => {
+                    return Err(v(scn, "nondeterministic", "digest(sim_runner) vs digest(manual loop with the seeded generator)", d1.to_string(), d3.to_string())
+                        .detail("the shipped runner differs from `agents.update(env, rng); env.step(rng)` driven by a generator built from the seed (Xoroshiro128** and 15 other seedable generators tried): some randomness does not come from the seeded generator, or the runner does something else".into()));
+                }
+            }
         }
         if scn.cfg.child.is_some() {
             match run_child(scn, run_dir) {
